@@ -4,6 +4,7 @@ import (
 	"encoding/binary"
 	"github.com/valyala/bytebufferpool"
 	"hash/crc32"
+	"io"
 )
 
 type LogRecordType = byte
@@ -188,15 +189,16 @@ func DecodeHintRecord(buf []byte) ([]byte, *DataPos) {
 }
 
 func DecodeChunk(block []byte) ([]byte, ChunkType, error) {
-	// 数据损坏或被截断时, 头部或长度字段可能超出实际数据范围
+	// 数据被截断 (或长度字段损坏) 时, 头部或长度字段可能超出实际数据范围.
+	// 与校验和不匹配区分开: 只有不完整的 chunk 才可能是崩溃留下的残缺尾部
 	if len(block) < chunkHeaderSize {
-		return nil, 0, ErrInvalidCRC
+		return nil, 0, io.ErrUnexpectedEOF
 	}
 	// length
 	length := binary.LittleEndian.Uint16(block[4:6])
 	start, end := chunkHeaderSize, chunkHeaderSize+uint32(length)
 	if end > uint32(len(block)) {
-		return nil, 0, ErrInvalidCRC
+		return nil, 0, io.ErrUnexpectedEOF
 	}
 	checksum := crc32.ChecksumIEEE(block[4:end])
 	savedSum := binary.LittleEndian.Uint32(block[:4])
